@@ -961,6 +961,20 @@ class Models(object):
             enc = enc.lower().replace('_', '-')
             if (name == 'encode') == isb:
                 return ex.raise_(path, AttributeError, name)
+            errors = 'strict'
+            if len(args) > 1 or 'errors' in (kw or {}):
+                oke, errors = concrete_of(args[1] if len(args) > 1 else kw['errors'])
+                if not oke:
+                    raise Unsupported('codec error handler')
+            if errors != 'strict' and not concrete_of(s)[0]:
+                if errors not in ('replace', 'ignore', 'backslashreplace', 'surrogateescape', 'xmlcharrefreplace', 'namereplace'):
+                    raise Unsupported('codec error handler %r' % errors)
+                # a lenient error handler never raises: identical for ASCII content, otherwise some other text
+                other_ = VBytes if not isb else VStr
+                is_ascii_ = z3.InRe(s.t, z3.Star(z3.Range(mk_str('\x00'), mk_str('\x7f'))))
+                r_ = ex.fresh_str(path, 'lenient_' + name)
+                path.assume_def([r_], [z3.Implies(is_ascii_, r_ == s.t)])
+                return [(path, other_(r_))]
             other = VBytes if not isb else VStr
             ok, c = concrete_of(s)
             if ok:
